@@ -18,6 +18,8 @@ JsonPool == {
   JNull, JTrue, JFalse, N("0"), N("1"), N("-1"), N("127"), N("128"), N("255"), N("256"), N("-129"), N("65"), N("2147483647"), N("2147483648"),
   N("9223372036854775807"), N("9223372036854775808"), N("18446744073709551615"), N("-9223372036854775808"), JNum(3, 2), JNum(-1, 2),
   S(<<>>), S(<<97>>), S(<<97, 98>>), S(<<233>>), S(<<85, 110, 105, 116>>), S(<<78, 101, 119>>), S(<<88>>),
+  JNum(3, 1), JNum(0, 1), JNum(-1, 1), JNum(255, 1), JNum(256, 1), JNum(65, 1), JArr(<<JNum(1, 1), JNum(2, 1)>>), JArr(<<JNum(1, 1), S(<<97>>)>>),   \* whole-valued FLOATS (3.0 ...)
+  O(<<JMem(<<120>>, JNum(1, 1)), JMem(<<121>>, JNum(2, 1))>>), S(<<49, 48, 46, 49, 46, 50, 46, 51>>),
   JArr(<<>>), JArr(<<N("1"), N("2")>>), JArr(<<N("1"), S(<<97>>)>>), JArr(<<N("1"), S(<<97>>), N("3")>>), JArr(<<S(<<97>>)>>), JArr(<<N("300")>>),
   JArr(<<JTrue, JNull>>), JArr(<<O(<<JMem(<<120>>, N("1")), JMem(<<121>>, N("2"))>>)>>),
   JObj(<<>>), O(<<JMem(<<120>>, N("1")), JMem(<<121>>, N("2"))>>), O(<<JMem(<<120>>, N("1"))>>), O(<<JMem(<<120>>, N("1")), JMem(<<121>>, N("2")), JMem(<<122>>, N("3"))>>),
@@ -39,5 +41,9 @@ JsonPool == {
   O(<<JMem(<<112>>, O(<<JMem(<<120>>, N("1")), JMem(<<121>>, N("2"))>>)), JMem(<<101>>, O(<<JMem(<<78, 101, 119>>, N("5"))>>)), JMem(<<111>>, JNull), JMem(<<100>>, N("9"))>>) }
 DeCases(zzdummy) == LET js == SetToSeq(JsonPool) IN [i \in DOMAIN js |-> [e |-> "serde", kind |-> "de", json |-> js[i]]]
 
-ASSUME ndJsonSerialize(IOEnv.OUT, SerCases(0) \o DeCases(0))
+Reals == <<"IpAddr4", "IpAddr6", "Ipv4Addr", "Ipv6Addr", "SocketAddr4", "SocketAddr6", "Duration", "PathBuf", "NonZeroU8", "Wrapping",
+    "Reverse", "BTreeSet", "VecDeque", "Range", "BoundIn", "BoundUn", "SomeUnit", "ResultOk", "ResultErr", "BoxStr", "CowStr", "Arr3", "Nested", "Phantom",
+    "Host", "NetAddr", "NetPair", "NetNamed", "MapIp", "OptIp">>
+RealCases(zzdummy) == [i \in DOMAIN Reals |-> [e |-> "serde", kind |-> "real", name |-> Reals[i]]]
+ASSUME ndJsonSerialize(IOEnv.OUT, SerCases(0) \o DeCases(0) \o RealCases(0))
 =============================================================================
